@@ -57,6 +57,20 @@ Theorem C19_secrets_hidden : sb_secrets_hidden sb_cur_facts = true.
 Proof. exact (eq_refl true <: sb_secrets_hidden sb_cur_facts = true). Qed.
 Print Assumptions C19_secrets_hidden.
 
+(* READ PATHS.  Every way the interpreter fetches a name or attribute goes through the accessor that tests no_user_view
+   when sandboxed: Indexer, method binding in FunctionCall, GetReference, combined assignment, Import (all GetField call
+   sites pass frame.Sandboxed - C19_structural_facts), Reference::Get, and the bare identifier resolved through a `using`
+   import (VMOps::FindVarImport -> GetField(parent, name, frame.Sandboxed)).  The ONLY raw accessor (GetOwnField,
+   GetField(fid), NavigateField, unsandboxed GetFieldByName) anywhere in expression.cpp / vmops.hpp is GetOwnField on
+   frame.Self in VariableExpression::DoEvaluate, which the model has as a raw read (Self is a container, proved). *)
+Theorem C19_read_paths :
+  sbf_var_import_checked sb_cur_facts = true /\ sb_raw_reads_expected sb_cur_raw_reads = true.
+Proof.
+  exact (conj (eq_refl true <: sbf_var_import_checked sb_cur_facts = true)
+              (eq_refl true <: sb_raw_reads_expected sb_cur_raw_reads = true)).
+Qed.
+Print Assumptions C19_read_paths.
+
 Theorem C19_premises_hold : sb_premises sb_cur_facts = true.
 Proof. exact (eq_refl true <: sb_premises sb_cur_facts = true). Qed.
 Print Assumptions C19_premises_hold.
@@ -72,8 +86,10 @@ Proof.
 Qed.
 Print Assumptions C19_guard_structure.
 
-(* the frames FilterUtility and EventQueue create for user supplied code set Sandboxed = true, the console
-   handler's take the request parameter *)
+(* FRAME STACK.  At every place where the product evaluates user supplied code (GetFilterTargets, EventQueue::ProcessEvent,
+   EventsFilter::Push, ExecuteScriptHelper) the LAST ScriptFrame constructed is the user's frame with Sandboxed = true
+   (console: the request parameter), and FilteredAddTarget / FilterUtility::EvaluateFilter construct none: no unsandboxed
+   frame lies above the user's frame while user code runs (callee frames inherit Sandboxed from the stack top). *)
 Theorem C19_frames_sandboxed : sb_frames_expected = true.
 Proof. exact (eq_refl true <: sb_frames_expected = true). Qed.
 Print Assumptions C19_frames_sandboxed.
@@ -82,14 +98,14 @@ Print Assumptions C19_frames_sandboxed.
 (* a sandboxed evaluation leaves globals, constants, config objects, shared containers, files and the config
    registry as they were *)
 Theorem C19_no_write : forall fuel fr e s,
-  sbfr_sandboxed fr = true -> sb_frame_ok sb_cur_facts fr = true ->
+  sbfr_sandboxed fr = true -> sbfr_top fr = true -> sb_frame_ok sb_cur_facts fr = true ->
   sb_protected (snd (sb_eval sb_cur_facts fuel fr e s)) = sb_protected s.
 Proof. exact (fun fuel fr e s => sb_no_write sb_cur_facts fuel fr e s C19_premises_hold). Qed.
 Print Assumptions C19_no_write.
 
 (* only functions registered side-effect-free are invoked, also as callbacks of sort/map/reduce/filter/any/all *)
 Theorem C19_calls : forall fuel fr e s,
-  sbfr_sandboxed fr = true -> sb_frame_ok sb_cur_facts fr = true ->
+  sbfr_sandboxed fr = true -> sbfr_top fr = true -> sb_frame_ok sb_cur_facts fr = true ->
   exists c, sbs_calls (snd (sb_eval sb_cur_facts fuel fr e s)) = c ++ sbs_calls s /\
             Forall (fun x => snd x = true) c.
 Proof. exact (fun fuel fr e s => sb_calls_safe sb_cur_facts fuel fr e s C19_premises_hold). Qed.
@@ -98,7 +114,7 @@ Print Assumptions C19_calls.
 (* no no_user_view field and no hidden global is fetched; hypothesis = negated signature of the known finding
    F-C19-b (a global that /v1/variables hides, TicketSalt, is defined) *)
 Theorem C19_no_read_hidden : forall fuel fr e s,
-  sbfr_sandboxed fr = true -> sb_frame_ok sb_cur_facts fr = true ->
+  sbfr_sandboxed fr = true -> sbfr_top fr = true -> sb_frame_ok sb_cur_facts fr = true ->
   sb_no_hidden_global sb_cur_facts s = true ->
   sbs_reads (snd (sb_eval sb_cur_facts fuel fr e s)) = sbs_reads s.
 Proof. exact (fun fuel fr e s => sb_no_read_hidden sb_cur_facts fuel fr e s C19_premises_hold). Qed.
@@ -106,7 +122,7 @@ Print Assumptions C19_no_read_hidden.
 
 (* without that hypothesis: the ONLY hidden values fetched are such globals - never a no_user_view field *)
 Theorem C19_reads_only_hidden_globals : forall fuel fr e s,
-  sbfr_sandboxed fr = true -> sb_frame_ok sb_cur_facts fr = true ->
+  sbfr_sandboxed fr = true -> sbfr_top fr = true -> sb_frame_ok sb_cur_facts fr = true ->
   exists r, sbs_reads (snd (sb_eval sb_cur_facts fuel fr e s)) = r ++ sbs_reads s /\
             Forall (fun x => exists g, x = SbRdGlobal g /\ sb_mem g (sbf_hidden_globals sb_cur_facts) = true) r.
 Proof. exact (fun fuel fr e s => sb_reads_only_hidden_globals sb_cur_facts fuel fr e s C19_premises_hold). Qed.
@@ -114,16 +130,35 @@ Print Assumptions C19_reads_only_hidden_globals.
 
 (* the same three statements for ANY facts table that passes the computed premises *)
 Theorem C19_from_premises : forall F fuel fr e s,
-  sb_premises F = true -> sbfr_sandboxed fr = true -> sb_frame_ok F fr = true ->
+  sb_premises F = true -> sbfr_sandboxed fr = true -> sbfr_top fr = true -> sb_frame_ok F fr = true ->
   sb_protected (snd (sb_eval F fuel fr e s)) = sb_protected s /\
   (exists c, sbs_calls (snd (sb_eval F fuel fr e s)) = c ++ sbs_calls s /\ Forall (fun x => snd x = true) c) /\
   (sb_no_hidden_global F s = true -> sbs_reads (snd (sb_eval F fuel fr e s)) = sbs_reads s).
 Proof.
-  exact (fun F fuel fr e s Hp Hs Hok =>
-    conj (sb_no_write F fuel fr e s Hp Hs Hok)
-      (conj (sb_calls_safe F fuel fr e s Hp Hs Hok) (sb_no_read_hidden F fuel fr e s Hp Hs Hok))).
+  exact (fun F fuel fr e s Hp Hs Ht Hok =>
+    conj (sb_no_write F fuel fr e s Hp Hs Ht Hok)
+      (conj (sb_calls_safe F fuel fr e s Hp Hs Ht Hok) (sb_no_read_hidden F fuel fr e s Hp Hs Ht Hok))).
 Qed.
 Print Assumptions C19_from_premises.
+
+(* every frame the evaluator itself pushes (Function::Invoke, NamespaceExpression) above a sandboxed stack top is again
+   sandboxed, is its own stack top and has a container as Self: the invariant the induction carries *)
+Theorem C19_nested_frames_sandboxed : forall fr self locals,
+  sbfr_top fr = true ->
+  match self with SbVObj ty _ => sb_type_clean sb_cur_facts ty = true | _ => True end ->
+  match locals with Some (SbVObj ty _) => sb_type_clean sb_cur_facts ty = true | _ => True end ->
+  sb_fr_good sb_cur_facts (sb_sub_frame sb_cur_facts fr self locals).
+Proof. exact (sb_sub_frame_good sb_cur_facts C19_premises_hold). Qed.
+Print Assumptions C19_nested_frames_sandboxed.
+
+(* both hypotheses are needed (sensitivity): a FindVarImport that reads through GetOwnField leaks
+   `using <ApiUser>; password`; an unsandboxed frame above the user's frame lets `[x].map(<unsafe native>)` write *)
+Theorem C19_hypotheses_needed :
+  sbs_reads (snd (sb_eval (sb_facts_import_unchecked sb_cur_facts) 4 sb_filter_frame sb_using_prog sb_using_st))
+    = [SbRdField sb_t_ApiUser sb_n_password] /\
+  sb_protected (snd (sb_eval sb_cur_facts 6 sb_below_frame sb_stack_prog sb_stack_st)) <> sb_protected sb_stack_st.
+Proof. exact (conj sb_using_unchecked_leaks sb_stack_unsandboxed_top_writes). Qed.
+Print Assumptions C19_hypotheses_needed.
 
 (* ---------------- findings ---------------- *)
 (* F-C19-a (fixed): on the facts of the pinned tree (SetConstExpression::DoEvaluate without guard) the sandboxed
@@ -145,12 +180,12 @@ Print Assumptions C19_const_fixed.
 Theorem C19_ticketsalt_refuted :
   let s := sb_st0 [(sb_n_TicketSalt, SbVOpaque)] in
   sb_no_hidden_global sb_cur_facts s = false /\
-  fst (sb_eval sb_cur_facts 3 sb_filter_frame (SbVariable sb_n_TicketSalt) s) = SbROk SbVOpaque /\
-  sbs_reads (snd (sb_eval sb_cur_facts 3 sb_filter_frame (SbVariable sb_n_TicketSalt) s)) = [SbRdGlobal sb_n_TicketSalt].
+  fst (sb_eval sb_cur_facts 3 sb_filter_frame (SbVariable sb_n_TicketSalt []) s) = SbROk SbVOpaque /\
+  sbs_reads (snd (sb_eval sb_cur_facts 3 sb_filter_frame (SbVariable sb_n_TicketSalt []) s)) = [SbRdGlobal sb_n_TicketSalt].
 Proof.
   exact (conj (@eq_refl _ false <: sb_no_hidden_global sb_cur_facts (sb_st0 [(sb_n_TicketSalt, SbVOpaque)]) = false)
-        (conj (@eq_refl _ (SbROk SbVOpaque) <: fst (sb_eval sb_cur_facts 3 sb_filter_frame (SbVariable sb_n_TicketSalt) (sb_st0 [(sb_n_TicketSalt, SbVOpaque)])) = SbROk SbVOpaque)
-              (@eq_refl _ [SbRdGlobal sb_n_TicketSalt] <: sbs_reads (snd (sb_eval sb_cur_facts 3 sb_filter_frame (SbVariable sb_n_TicketSalt) (sb_st0 [(sb_n_TicketSalt, SbVOpaque)]))) = [SbRdGlobal sb_n_TicketSalt]))).
+        (conj (@eq_refl _ (SbROk SbVOpaque) <: fst (sb_eval sb_cur_facts 3 sb_filter_frame (SbVariable sb_n_TicketSalt []) (sb_st0 [(sb_n_TicketSalt, SbVOpaque)])) = SbROk SbVOpaque)
+              (@eq_refl _ [SbRdGlobal sb_n_TicketSalt] <: sbs_reads (snd (sb_eval sb_cur_facts 3 sb_filter_frame (SbVariable sb_n_TicketSalt []) (sb_st0 [(sb_n_TicketSalt, SbVOpaque)]))) = [SbRdGlobal sb_n_TicketSalt]))).
 Qed.
 Print Assumptions C19_ticketsalt_refuted.
 
@@ -166,13 +201,14 @@ Print Assumptions C19_console_refuted.
 
 (* the oracle run over implementation traces accepts every observation consistent with a model run *)
 Theorem C19_oracle_accepts_model : forall fuel fr e s o,
-  sbfr_sandboxed fr = true -> sb_frame_ok sb_cur_facts fr = true -> sb_no_hidden_global sb_cur_facts s = true ->
+  sbfr_sandboxed fr = true -> sbfr_top fr = true -> sb_frame_ok sb_cur_facts fr = true -> sb_no_hidden_global sb_cur_facts s = true ->
   sb_obs_of_model sb_cur_facts s (snd (sb_eval sb_cur_facts fuel fr e s)) o -> sb_oracle o = None.
 Proof. exact (fun fuel fr e s o => sb_oracle_accepts_model sb_cur_facts fuel fr e s o C19_premises_hold). Qed.
 Print Assumptions C19_oracle_accepts_model.
 
 (* non-vacuity: the frame FilterUtility/EventQueue create meets the premises of the theorems *)
 Example C19_nonvacuous :
-  sbfr_sandboxed sb_filter_frame = true /\ sb_frame_ok sb_cur_facts sb_filter_frame = true /\
+  sbfr_sandboxed sb_filter_frame = true /\ sbfr_top sb_filter_frame = true /\
+  sb_frame_ok sb_cur_facts sb_filter_frame = true /\
   sb_no_hidden_global sb_cur_facts (sb_st0 []) = true.
 Proof. vm_compute. repeat split; reflexivity. Qed.
